@@ -1066,7 +1066,8 @@ fn main() {
         stage_json = json!({
             "what": "sequences of #[derive(GraphQLQuery)] expanded by one real rustc process each through the shipped proc-macro dylib; every derive's error diagnostics compared with the same derive alone in its own rustc process",
             "rustc_processes_with_a_sequence": r.histories, "derive_expansions_compared": r.derives_checked,
-            "alone_rustc_processes": r.alone_crates, "faulty_derives_in_sequences": r.faulty_derives, "samples": r.samples,
+            "alone_rustc_processes": r.alone_crates, "faulty_derives_in_sequences": r.faulty_derives,
+            "valid_derive_expansions_compared_token_for_token": r.expansions_compared, "expansion_pass": r.expansion_note.clone().unwrap_or_else(|| "cargo +nightly check with a RUSTC_WRAPPER adding -Zunpretty=expanded".into()), "samples": r.samples,
         });
         // minimise: drop derives while the same class persists
         for (class, detail, doc) in r.violations.into_iter().take(2) {
